@@ -661,8 +661,8 @@ class ExprGen:
 # ---------------------------------------------------------------------------
 
 def literal_reductions(n):
-    """simpler spellings of the same literal value, tried in this order (each kept if the failure persists):
-    drop the encoding prefix (chars), drop the suffix, drop the digit separators, finally plain decimal."""
+    """simpler spellings of the same literal value, most complex first: without the encoding prefix (chars); without
+    digit separators; without suffix; without both; plain decimal.  Callers keep the simplest one that still fails."""
     s = n[1]
     out = []
     m = re.match(r"^(u8|u|U|L)?'", s)
@@ -670,14 +670,15 @@ def literal_reductions(n):
         if m.group(1):
             out.append(["lit", s[len(m.group(1)):], n[2], "i"])
     else:
-        t = s
-        m = re.search(r"[uUlLzZ]+$", t)
-        if m:
-            t = t[:m.start()]
-            out.append(["lit", t, n[2], "i"])
-        if "'" in t:
-            t = t.replace("'", "")
-            out.append(["lit", t, n[2], "i"])
-    if n[2] >= 0 and str(n[2]) != s:
+        m = re.search(r"[uUlLzZ]+$", s)
+        suf = m.group(0) if m else ""
+        core_ = s[:len(s) - len(suf)]
+        if "'" in core_ and suf:
+            out.append(["lit", core_.replace("'", "") + suf, n[2], n[3]])
+        if suf:
+            out.append(["lit", core_, n[2], "i"])
+        if "'" in core_:
+            out.append(["lit", core_.replace("'", ""), n[2], "i"])
+    if n[2] >= 0 and str(n[2]) != s and (not out or out[-1][1] != str(n[2])):
         out.append(["lit", str(n[2]), n[2], "i"])
     return out
